@@ -683,6 +683,7 @@ class Guards:
         ps = self.params(side, f)
         guards, sites = [], []
         self._branches = []
+        self._order = []
         J = self.J
 
         def ok_leaf(n):
@@ -783,10 +784,17 @@ class Guards:
                 if is_exit:
                     for g in cond(n['cond']):
                         guards.append(g)
+                        self._order.append(('guard', g))
                 else:
                     for g in cond(n['cond']):
                         if re.search(r'\bp\d+\b', g):
                             self._branches.append(g)
+                    # an early value return: `if (cond) return <value>;`
+                    tb = th.get('c', []) if th.get('k') == 'CompoundStmt' else [th]
+                    if len(tb) == 1 and tb[0].get('k') == 'ReturnStmt' and not n.get('else'):
+                        cs_ = cond(n['cond'])
+                        if len(cs_) == 1 and re.search(r'\bp\d+\b', cs_[0]):
+                            self._order.append(('early', cs_[0]))
             if k == 'TryStmt':
                 for r in n.get('resources', []) or []:
                     walk_stmt(r, swallow)
@@ -826,6 +834,7 @@ class Guards:
                         argt = ['p0'] + argt          # a sibling method called on the same object
                     for t in targets:
                         sites.append((t, argt, prop))
+                        self._order.append(('site', t, argt, prop))
             for key in ('cond', 'then', 'else', 'init', 'inc', 'body', 'lhs', 'rhs', 'sub', 'block', 'finally', 'range', 'recv', 'fn'):
                 if key in n and isinstance(n[key], dict):
                     walk_stmt(n[key], swallow)
@@ -838,6 +847,42 @@ class Guards:
 
         walk_stmt(normalise_returns(f.get('body') or {}, is_error_exit_c if side == 'c' else self._java_exit), False)
         return guards, sites
+
+    def early_returns(self, side, name):
+        """{condition of an early value return (`if (c) return v;`): the set of parameter guards - the function's own and those of the
+        propagating calls made before it - that have been passed when it is reached}.  A guard that the twin evaluates BEFORE the early
+        return and this side only after it (or never on that path) makes the two sides disagree about errors on the early-return inputs."""
+        f = self.lookup(side, name)
+        if f is None:
+            return {}
+        self.local(side, f)
+        order = list(self._order)
+        binding = f.get('_binding') or {}
+        before, out = set(), {}
+        for ev in order:
+            if ev[0] == 'guard':
+                before.add(canon_guard(ev[1]))
+            elif ev[0] == 'site':
+                _, callee, args, prop = ev
+                if not prop:
+                    continue
+                callee = binding.get(callee, callee)
+                for g in self.gstar(side, callee, (name,)):
+                    ok = True
+
+                    def rep(m):
+                        nonlocal ok
+                        i = int(m.group(1))
+                        if i >= len(args) or args[i] is None:
+                            ok = False
+                            return m.group(0)
+                        return '\0' + args[i] + '\0'
+                    g2 = re.sub(r'\bp(\d+)\b', rep, g)
+                    if ok:
+                        before.add(canon_guard(g2.replace('\0', '')))
+            else:
+                out[canon_guard(ev[1])] = {g for g in before if self.keep(g)}
+        return out
 
     def branches(self, side, name):
         """conditions over the function's own parameters that select a NON-failing branch (e.g. `density <= 0` -> take the catalogue
